@@ -149,7 +149,9 @@ func isWordTok(t *kvql.Token) bool {
 // lexer makes of it, every token must stand where it says it stands); 0xc3
 // 0xa0 together are the letter a-grave, whose last byte read on its own is the
 // Latin-1 no-break space
-const c16Alphabet = "a1. '\"`=!<>^~&|()[],;+-*/\t\n\xff\f\xc3\xa0"
+// (round 10: the carriage return, so that a Windows line end behind a word,
+// "a\r\n", is among the enumerated strings)
+const c16Alphabet = "a1. '\"`=!<>^~&|()[],;+-*/\t\n\r\xff\f\xc3\xa0"
 
 func c16Nontrivial(q string) bool {
 	// a two-character operator, or a quoted literal adjacent to another token
@@ -285,6 +287,14 @@ func c16GapMandatory(a, b c16Tok) bool {
 type c16SeqCase struct {
 	Toks   []c16Tok `json:"toks"`
 	Spaces []int    `json:"spaces"` // spaces before token i (and one trailing entry)
+	Blank  string   `json:"blank,omitempty"` // what one "space" is made of (default " "): tab, line end, CRLF
+}
+
+func (c *c16SeqCase) blank() string {
+	if c.Blank == "" {
+		return " "
+	}
+	return c.Blank
 }
 
 func init() {
@@ -294,10 +304,10 @@ func init() {
 func (c *c16SeqCase) query() string {
 	var sb strings.Builder
 	for i, tk := range c.Toks {
-		sb.WriteString(strings.Repeat(" ", c.Spaces[i]))
+		sb.WriteString(strings.Repeat(c.blank(), c.Spaces[i]))
 		sb.WriteString(tk.Text)
 	}
-	sb.WriteString(strings.Repeat(" ", c.Spaces[len(c.Toks)]))
+	sb.WriteString(strings.Repeat(c.blank(), c.Spaces[len(c.Toks)]))
 	return sb.String()
 }
 
@@ -328,6 +338,8 @@ func TestC16Spacing(t *testing.T) {
 			toks[i] = genC16Tok(rt)
 		}
 		wide := rapid.IntRange(2, 4).Draw(rt, "wide")
+		// the documented blanks: space, tab, line end (alone or as CRLF, CR)
+		blank := rapid.SampledFrom([]string{" ", " ", " ", "\t", "\n", "\r\n", "\r", " \r\n"}).Draw(rt, "blank")
 		// optional gap positions: 0 (leading) .. n (trailing)
 		mandatory := make([]bool, n+1)
 		for i := 1; i < n; i++ {
@@ -341,7 +353,7 @@ func TestC16Spacing(t *testing.T) {
 		}
 		// every subset of optional gaps gets a space (2^|opt| <= 512)
 		for mask := 0; mask < 1<<len(opt); mask++ {
-			c := &c16SeqCase{Toks: toks, Spaces: make([]int, n+1)}
+			c := &c16SeqCase{Toks: toks, Spaces: make([]int, n+1), Blank: blank}
 			for i := range mandatory {
 				if mandatory[i] {
 					c.Spaces[i] = 1
